@@ -199,6 +199,11 @@ type poolSet struct {
 	wd     map[string][]rune // by word class name
 	pic    []rune            // Extended_Pictographic
 	extFmt []rune            // word ExtendFormat
+	// the same groupings over all concrete edge code points (edgePoints), representative first
+	edge  []rune
+	lineX map[string][]rune
+	grX   map[string][]rune
+	wdX   map[string][]rune
 }
 
 var (
@@ -221,6 +226,100 @@ func pools() *poolSet {
 			}
 		}
 		pool.extFmt = pool.wd["ExtFmt"]
+		pool.edge = edgePoints()
+		pool.lineX, pool.grX, pool.wdX = map[string][]rune{}, map[string][]rune{}, map[string][]rune{}
+		for _, m := range []struct {
+			src, dst map[string][]rune
+		}{{pool.line, pool.lineX}, {pool.gr, pool.grX}, {pool.wd, pool.wdX}} {
+			for k, v := range m.src {
+				m.dst[k] = append(m.dst[k], v...)
+			}
+		}
+		for _, r := range pool.edge {
+			pool.lineX[lineSig(r)] = append(pool.lineX[lineSig(r)], r)
+			g := gNames[ucd.LookupGraphemeBreakClass(r)]
+			pool.grX[g] = append(pool.grX[g], r)
+			w := wNames[ucd.LookupWordBreakClass(r)]
+			pool.wdX[w] = append(pool.wdX[w], r)
+		}
 	})
 	return &pool
+}
+
+// ---- concrete code points (value-specific fast paths show only at specific code points) ----
+
+var (
+	edgeOnce sync.Once
+	edges    []rune
+)
+
+// edgePoints returns every code point of U+0000..U+00FF plus, for every range [lo,hi] of every
+// table the segmenter reads (line, grapheme, word classes, Extended_Pictographic, LargeEastAsian,
+// Word, general categories), the code points lo-1, lo, hi, hi+1 (for strided ranges additionally
+// every member and its two neighbours when the range is small), plus the UTF-8/UTF-16 length
+// edges and the last code point. Surrogates are left out.
+func edgePoints() []rune {
+	edgeOnce.Do(func() {
+		set := map[rune]struct{}{}
+		for r := rune(0); r <= 0xFF; r++ {
+			set[r] = struct{}{}
+		}
+		around := func(v rune) {
+			set[v-1] = struct{}{}
+			set[v] = struct{}{}
+			set[v+1] = struct{}{}
+		}
+		addRange := func(lo, hi, stride rune, members bool) {
+			set[lo-1] = struct{}{}
+			set[lo] = struct{}{}
+			set[hi] = struct{}{}
+			set[hi+1] = struct{}{}
+			if stride > 1 && members && (hi-lo)/stride <= 64 {
+				for v := lo; v <= hi; v += stride {
+					around(v)
+				}
+			}
+		}
+		add := func(t *unicode.RangeTable, members bool) {
+			if t == nil {
+				return
+			}
+			for _, x := range t.R16 {
+				addRange(rune(x.Lo), rune(x.Hi), rune(x.Stride), members)
+			}
+			for _, x := range t.R32 {
+				addRange(rune(x.Lo), rune(x.Hi), rune(x.Stride), members)
+			}
+		}
+		for _, t := range ucd.VerifLineBreaks() {
+			add(t, true)
+		}
+		_, gs := ucd.VerifGraphemeBreaks()
+		for _, t := range gs {
+			add(t, true)
+		}
+		_, ws := ucd.VerifWordBreaks()
+		for _, t := range ws {
+			add(t, true)
+		}
+		add(ucd.Extended_Pictographic, true)
+		add(ucd.LargeEastAsian, true)
+		add(ucd.Word, true)
+		for name, t := range unicode.Categories {
+			if len(name) == 2 {
+				add(t, false)
+			}
+		}
+		for _, v := range []rune{0x7F, 0x80, 0xFF, 0x100, 0x7FF, 0x800, 0xFFFF, 0x10000, 0x10FFFF, 0x2028, 0x2029, 0x200D, 0x200B} {
+			around(v)
+		}
+		for r := range set {
+			if r < 0 || r > 0x10FFFF || (r >= 0xD800 && r <= 0xDFFF) {
+				continue
+			}
+			edges = append(edges, r)
+		}
+		sort.Slice(edges, func(i, j int) bool { return edges[i] < edges[j] })
+	})
+	return edges
 }
